@@ -91,7 +91,7 @@ def api_main(ctx, kinds=("q", "p", "h")):
     cs += corpora.fam_seed(s, kinds, per=4 if q else 16)
     cs += corpora.fam_gram(s, kinds, 6000 if q else 120000)
     cs += corpora.fam_mut(s, kinds, 6000 if q else 120000)
-    cs += corpora.fam_pos256(s, kinds, range(0, 71, 5 if q else 1), stride=3 if q else 1)
+    cs += corpora.fam_pos256(s, kinds, range(0, 71, 5 if q else 1), stride=1)
     cs += [c for c in corpora.fam_lengths(s, 100) if c[2] in kinds]
     cs += corpora.fam_long(s, kinds)
     cs += corpora.fam_pairs(s, kinds, quick=q)
@@ -910,6 +910,66 @@ def run_C16(ctx):
             ctx.validated += 1
             if res.model[cid] != iraw:
                 ctx.mismatch(res.cases[cid], iraw, res.model[cid])
+    # the same agreement on a REUSED Request / Response: after the same earlier calls, the four entry points
+    # given the same buffer, configuration and capacity (the current length of `headers`, read off a first
+    # pass) leave the same status, start-line fields and headers -- whatever the outcome
+    hist = []
+    for i in range(1200 if q else 30000):
+        kind = "qp"[i % 2]
+        cap = r.choice([1, 2, 4, 8])
+        pre = []
+        for j in range(1 + r.below(2)):
+            b = gen.GRAM[kind](r, lenient=r.below(2))
+            t = r.below(4)
+            if t == 0:
+                b = b[:r.below(len(b) + 1)]
+            elif t == 1:
+                b = gen.mutate(r, b)
+            pre.append((r.below(4), r.choice(gen.relevant_cfgs(kind)), r.choice([1, 2, 4, 8]), b))
+        b = gen.GRAM[kind](r, lenient=r.below(2))
+        t = r.below(4)
+        if t <= 1:
+            b = b[:r.below(len(b) + 1)]
+        elif t == 2:
+            b = gen.mutate(r, b)
+        cf = 0 if i % 3 == 0 else r.choice(gen.relevant_cfgs(kind))
+        hist.append((kind, cap, pre, cf, b))
+    first = [("H", "c16r.%d.1" % i, kind, cap, pre + [(1, cf, cap, b)]) for i, (kind, cap, pre, cf, b) in enumerate(hist)]
+    resh = execute("C16-hist", first)
+    ctx.broken += resh.errors
+    second = []
+    for i, (kind, cap, pre, cf, b) in enumerate(hist):
+        o = resh.impl.get("c16r.%d.1" % i)
+        if o is None:
+            continue
+        vl = int(Obs(o).start or 0)
+        for e in ((0, 2, 3) if cf == 0 else (3,)):
+            second.append(("H", "c16r.%d.%d" % (i, e), kind, cap, pre + [(e, cf, vl, b)]))
+    resh2 = execute("C16-hist2", second)
+    ctx.broken += resh2.errors
+    for rr in (resh, resh2):
+        for cid, iraw in rr.impl.items():
+            if cid in rr.model:
+                ctx.validated += 1
+                if rr.model[cid] != iraw:
+                    ctx.mismatch(rr.cases[cid], iraw, rr.model[cid])
+    for i, (kind, cap, pre, cf, b) in enumerate(hist):
+        o1 = resh.impl.get("c16r.%d.1" % i)
+        if o1 is None:
+            continue
+        O1 = Obs(o1)
+        ctx.count("reused-probe:" + O1.kindclass)
+        for e in ((0, 2, 3) if cf == 0 else (3,)):
+            cid = "c16r.%d.%d" % (i, e)
+            if cid not in resh2.impl:
+                continue
+            ctx.evaluations += 1
+            O = Obs(resh2.impl[cid])
+            same = (O.status, O.f) == (O1.status, O1.f) and (O.kindclass != "C" or O.exposed == O1.exposed)
+            if not same:
+                ctx.fail(resh2.cases[cid], "entry points disagree on a reused value (same earlier calls, buffer, configuration, "
+                         "capacity): entry 1 gives %s, entry %d gives %s" % (O1.raw, e, O.raw), impl=O.raw)
+                break
     for gk, ids in groups:
         if gk == "entries":
             by_cf = {}
